@@ -113,10 +113,15 @@ def add_arcs(rng: random.Random, asm: dict, prob: float = 0.35) -> None:
                 for p in AXIS_PAIRS[a]:
                     edges.add(tuple(sorted((cs[p[0]], cs[p[1]]))))
         edges = sorted(edges)
+        owners = lambda e: sum(1 for blk in asm["blocks"] if set(e) <= set(block_corners(asm, blk)))
+        shared = [e for e in edges if owners(e) >= 2]
+        if shared and rng.random() < 0.7:
+            edges = shared
         for e in rng.sample(edges, min(len(edges), rng.randint(1, 3))):
             # bulge relative to the chord, small enough for an arc well below a half circle (beyond that the
             # length of a three-point arc is direction dependent: C08's known finding, not this property's subject)
-            arcs.append({"edge": [list(e[0]), list(e[1])], "bulge": [rng.choice([-0.18, -0.1, 0.1, 0.18]) for _ in range(3)]})
+            arcs.append({"edge": [list(e[0]), list(e[1])], "bulge": [rng.choice([-0.18, -0.1, 0.1, 0.18]) for _ in range(3)],
+                         "owner": rng.randrange(4)})  # which of the blocks that own the edge defines the arc (modulo their number)
     asm["arcs"] = arcs
 
 
@@ -259,9 +264,47 @@ def gen_full(rng: random.Random, max_blocks: int) -> dict:
             _, sgn = axis_direction(asm["blocks"][b]["rot"], a)
             c = calls if sgn == 1 else [invert_call(k) for k in reversed(calls)]
             if (b, a) == odd:
-                c = [dict(k, count=k["count"] + 3) for k in c]
+                if rng.random() < 0.5:
+                    c = [dict(k, count=k["count"] + 3) for k in c]
+                else:  # same proportions and expansions, twice the cells
+                    c = [dict(k, count=k["count"] * 2) for k in c]
             chops.append({"block": b, "axis": a, "calls": [dict(k) for k in c]})
     return {"kind": "full", "asm": asm, "chops": chops}
+
+
+def gen_edge_conflict(rng: random.Random) -> dict:
+    """A chopped block A, an un-chopped face neighbour B, and a chopped block C that touches B along ONE edge only
+    (and does not touch A), demanding another count on that edge; inserted A, B, C or shuffled."""
+    perm = rng.sample(range(3), 3)  # direction A-B, direction of the diagonal offset, direction of the shared edge
+
+    def cell(u, v, w):
+        x = [0, 0, 0]
+        x[perm[0]], x[perm[1]], x[perm[2]] = u, v, w
+        return x
+
+    cells = [cell(0, 0, 0), cell(1, 0, 0), cell(2, 1, 0)]  # A, B, C: C shares with B the edge u=2, v=1
+    order = [0, 1, 2]
+    if rng.random() < 0.4:
+        rng.shuffle(order)
+    blocks = [{"cell": cells[i], "rot": rng.randrange(24)} for i in order]
+    dims = [max(c[d] for c in cells) + 1 for d in range(3)]
+    jit = {f"{i},{j},{k}": [rng.randint(-6, 6) / 64 for _ in range(3)] for i in range(dims[0] + 1) for j in range(dims[1] + 1) for k in range(dims[2] + 1)}
+    asm = {"blocks": blocks, "jitter": jit, "scale": [1.0, 1.0, 1.0], "arcs": []}
+    pos = {tuple(b["cell"]): i for i, b in enumerate(blocks)}
+    fam_of, members = families(asm)
+    ia, ic = pos[tuple(cells[0])], pos[tuple(cells[2])]
+    chops = []
+    done = set()
+    n = rng.randint(3, 8)
+    for blk, count in ((ia, n), (ic, n + rng.choice([0, 0, 2, 10]))):
+        a = next(a for a in range(3) if axis_direction(blocks[blk]["rot"], a)[0] == perm[2])
+        chops.append({"block": blk, "axis": a, "calls": [{"count": count}]})
+        done.add(fam_of[(blk, a)])
+    for f, mem in members.items():
+        if f not in done:
+            b, a = rng.choice(mem)
+            chops.append({"block": b, "axis": a, "calls": [{"count": rng.randint(2, 6)}]})
+    return {"kind": "edge_conflict", "asm": asm, "chops": chops}
 
 
 def gen_case(rng: random.Random, max_blocks: int, mode: str) -> dict:
@@ -270,6 +313,8 @@ def gen_case(rng: random.Random, max_blocks: int, mode: str) -> dict:
         return gen_sandwich(rng)
     if mode == "full":
         return gen_full(rng, max_blocks)
+    if mode == "edge_conflict":
+        return gen_edge_conflict(rng)
     asm = gen_assembly(rng, max_blocks)
     fam_of, members = families(asm)
     chops: List[dict] = []  # {"block","axis","calls":[kwargs…]}
@@ -286,11 +331,21 @@ def gen_case(rng: random.Random, max_blocks: int, mode: str) -> dict:
             others = [x for x in mem if x != (b, a)]
             b2, a2 = rng.choice(others)
             if m == "conflict":
-                chops.append({"block": b2, "axis": a2, "calls": [{"count": rng.choice([11, 13])}]})
+                if all(set(c) <= {"count", "length_ratio", "total_expansion", "c2c_expansion", "preserve"} and "count" in c for c in calls) and rng.random() < 0.5:
+                    # the same chop with doubled counts (same proportions and expansions), in the same geometric direction
+                    s1 = axis_direction(asm["blocks"][b]["rot"], a)[1]
+                    s2 = axis_direction(asm["blocks"][b2]["rot"], a2)[1]
+                    dbl = [dict(c, count=c["count"] * 2) for c in calls]
+                    chops.append({"block": b2, "axis": a2, "calls": dbl if s1 == s2 else [invert_call(c) for c in reversed(dbl)]})
+                else:
+                    chops.append({"block": b2, "axis": a2, "calls": [{"count": rng.choice([11, 13])}]})
             else:
                 c2 = [dict(c) for c in calls] if rng.random() < 0.5 else gen_chop(rng, ["count", "count_c2c"], None)
                 chops.append({"block": b2, "axis": a2, "calls": c2})
-    return {"kind": mode, "asm": asm, "chops": chops}
+    case = {"kind": mode, "asm": asm, "chops": chops}
+    if rng.random() < 0.25 and not asm.get("arcs"):
+        case["stretch"] = [rng.randrange(3), rng.choice([0.5, 1.5, 2.5])]  # vertices moved between the two writes
+    return case
 
 
 # ----------------------------------------------------------------------------------------- implementation
@@ -300,8 +355,15 @@ def build_mesh(case: dict, order: Optional[List[int]] = None, rots: Optional[Lis
     asm = case["asm"]
     mesh = cb.Mesh()
     ops = []
-    done_arcs = set()
     idx = list(range(len(asm["blocks"]))) if order is None else order
+    # the block that defines each arc: the `owner`-th (modulo) of the blocks containing the edge, in case order —
+    # so the arc may be defined by a later operation than the first one that uses the edge
+    arc_owner = {}
+    for ai, arc in enumerate(asm.get("arcs", [])):
+        e = {tuple(arc["edge"][0]), tuple(arc["edge"][1])}
+        owners = [b for b in range(len(asm["blocks"])) if e <= set(block_corners(asm, asm["blocks"][b]))]
+        if owners:
+            arc_owner[ai] = owners[arc.get("owner", 0) % len(owners)]
     for b in idx:
         blk = dict(asm["blocks"][b])
         if rots is not None:
@@ -310,9 +372,9 @@ def build_mesh(case: dict, order: Optional[List[int]] = None, rots: Optional[Lis
         pts = [lattice_point(asm, c) for c in cs]
         op = cb.Loft(cb.Face(pts[:4]), cb.Face(pts[4:]))
         for ai, arc in enumerate(asm.get("arcs", [])):
-            e0, e1 = tuple(arc["edge"][0]), tuple(arc["edge"][1])
-            if ai in done_arcs:
+            if arc_owner.get(ai) != b:
                 continue
+            e0, e1 = tuple(arc["edge"][0]), tuple(arc["edge"][1])
             for c1 in range(8):
                 for c2 in range(8):
                     if cs[c1] == e0 and cs[c2] == e1:
@@ -326,7 +388,6 @@ def build_mesh(case: dict, order: Optional[List[int]] = None, rots: Optional[Lis
                             op.bottom_face.add_edge(lo if hi - lo == 1 else 3, cb.Arc(mid))
                         else:
                             op.top_face.add_edge((lo - 4) if hi - lo == 1 else 3, cb.Arc(mid))
-                        done_arcs.add(ai)
         ops.append((b, op, blk))
     for b, op, blk in ops:
         for ch in case["chops"]:
@@ -458,6 +519,16 @@ def run_write(case: dict, order=None, rots=None, timeout: float = 20.0) -> dict:
             res["internals_error"] = repr(e)
     # the same mesh object written once more (a retry after an error, or a second export)
     second: Dict[str, Any] = {}
+    stretch = case.get("stretch")
+    if stretch and res["outcome"] != "hang" and not case["asm"].get("arcs"):
+        try:
+            for v in mesh.vertices:
+                p = [float(x) for x in v.position]
+                p[stretch[0]] *= stretch[1]
+                v.move_to(p)
+            second["stretched"] = True
+        except Exception as e:
+            second["stretch_error"] = repr(e)
     if res["outcome"] != "hang":
         path2 = os.path.join(tmp, "blockMeshDict.2")
         signal.setitimer(signal.ITIMER_REAL, timeout)
@@ -673,6 +744,7 @@ def prepare(case: dict, order=None, rots=None):
     obs["order"] = res["order"]
     sec = res.get("second", {})
     obs["second"] = {"outcome": sec.get("outcome"), "message": sec.get("message")}
+    obs["second"]["stretched"] = bool(sec.get("stretched"))
     if sec.get("outcome") == "ok":
         obs["second"]["hex"] = parse_hex_lines(sec["text"])
         obs["second"]["same_text"] = sec["text"] == res.get("text")
@@ -965,4 +1037,71 @@ def shrink_candidates(case: dict) -> List[dict]:
             out.append(c)
     for c in out:
         c.pop("origin", None)
+    return out
+
+
+# ----------------------------------------------------------------------------------------- stacks (C04, oracle only)
+def parse_vertices(text: str) -> List[List[float]]:
+    sec = text.split("vertices")[1].split(");")[0]
+    return [[float(x) for x in m.groups()] for m in re.finditer(r"\(\s*(-?[0-9.eE+-]+) (-?[0-9.eE+-]+) (-?[0-9.eE+-]+)\)", sec)]
+
+
+def run_stack(case: dict) -> dict:
+    """A TransformedStack of scaled tiers chopped with Stack.chop (one chop call for the whole stack) and a preserved
+    first/last cell size; written twice.  Observation: vertices and hex lines of the file."""
+    import classy_blocks as cb
+
+    warnings.simplefilter("ignore")
+    base = cb.Grid([0, 0, 0], [case["nx"] * 1.0, case["ny"] * 0.8, 0], case["nx"], case["ny"])
+    stack = cb.TransformedStack(base, [cb.Translation(case["shift"]), cb.Scaling(case["scale"])], case["tiers"])
+    for op in stack.shapes[0].operations:
+        op.chop(0, count=3)
+        op.chop(1, count=2)
+    stack.chop(**case["chop"])
+    mesh = cb.Mesh()
+    mesh.add(stack)
+    tmp = tempfile.mkdtemp(prefix="cbv_stack_")
+    res: Dict[str, Any] = {"ops_per_tier": case["nx"] * case["ny"]}
+    try:
+        for k in ("first", "second"):
+            path = os.path.join(tmp, k)
+            try:
+                mesh.write(path)
+                text = open(path).read()
+                res[k] = {"outcome": "ok", "hex": parse_hex_lines(text), "vertices": parse_vertices(text)}
+            except Exception as e:
+                res[k] = {"outcome": type(e).__name__, "message": str(e)[:200]}
+    finally:
+        shutil.rmtree(tmp, ignore_errors=True)
+    return res
+
+
+def oracle_stack(case: dict, impl: dict) -> List[dict]:
+    """Within every tier the preserved first (last) cell size is the same on every edge of the stacking direction."""
+    out = []
+    pres = case["chop"].get("preserve")
+    for k in ("first", "second"):
+        r = impl.get(k, {})
+        if r.get("outcome") != "ok":
+            out.append({"site": f"Stack.chop:write-fails:{k}", "what": str(r)[:200]})
+            continue
+        per_tier: Dict[int, List[float]] = {}
+        for b, hx in enumerate(r["hex"]):
+            for kk, p in enumerate(AXIS_PAIRS[2]):
+                ent = hx["entries"][2] if hx["kind"] == "simpleGrading" else hx["entries"][8 + kk]
+                if isinstance(ent, list):
+                    continue
+                L = math.dist(r["vertices"][hx["verts"][p[0]]], r["vertices"][hx["verts"][p[1]]])
+                first, last = first_last_size(L, hx["counts"][2], ent)
+                per_tier.setdefault(b // impl["ops_per_tier"], []).append(first if pres == "start_size" else last)
+        if pres in ("start_size", "end_size"):
+            for t, sizes in per_tier.items():
+                if max(sizes) - min(sizes) > 1e-4 * max(sizes):
+                    out.append(
+                        {
+                            "site": f"Stack.chop:preserved-size-differs-within-tier:{k}-write",
+                            "what": f"tier {t}: {pres} realised as {sorted(set(round(x, 6) for x in sizes))}",
+                        }
+                    )
+                    break
     return out
